@@ -210,11 +210,14 @@ def apply_inline(line, site):
 
 LINE_EDITS = ["blank-before", "semicolon-comment-before", "block-comment-before", "multiline-comment-before", "indent-spaces", "indent-tab",
               "trailing-spaces", "eol-comment", "star-comment-before", "doc-comment-before", "tricky-comment-before", "eol-tricky-comment", "opener-in-semicolon-comment-before",
-              "eol-opener-comment"]
+              "eol-opener-comment", "slash-first-comment-before", "banner-comment-before", "empty-comment-before"]
 COMMENT_TEXT = {
     "star-comment-before": "/***/",
     "doc-comment-before": "/** documentation **/",
     "tricky-comment-before": "/* a * b ** c / d 'q' \"dq\" { } ; .db 1 ****/",
+    "slash-first-comment-before": "/*/ a slash right after the opener */",
+    "banner-comment-before": "/*//////// banner ////////*/",
+    "empty-comment-before": "/**/",
     "opener-in-semicolon-comment-before": "; graphics come from gfx/*.bin (a block-comment opener inside a line comment)",
 }
 
